@@ -1,6 +1,6 @@
 """C02 - tags are the union over all matching rules; tag-only rules never categorise.
 
-Exhaustive: every ordered sequence of <= K distinct blocks over an 11-block .rules alphabet (static and
+Exhaustive: every ordered sequence of <= K distinct blocks over a 13-block .rules alphabet (static and
 dynamic tags; tag-only rules that are more specific than the categorising ones) in BOTH rule modes, and
 every sequence of <= K legacy CSV rows with pipe-separated tags; each file x 72 transactions, through
 MerchantEngine.match and the get_all_rules/normalize_merchant path.
@@ -14,8 +14,8 @@ from mc.checks import rules_common as R
 
 PROPERTY = "C02"
 LEVEL = "exploration"
-RULE = ("cases = every ordered sequence of 1..K distinct blocks (K=3 quick, 4 thorough) over 11 .rules blocks "
-        "(6 categorising with static / mixed-case / {field.x} / {source} / {extract()} tags, 5 tag-only incl. one more specific than "
+RULE = ("cases = every ordered sequence of 1..K distinct blocks (K=3 quick, 4 thorough) over 13 .rules blocks "
+        "(6 categorising with static / mixed-case / {field.x} / {source} / {extract()} tags, 7 tag-only incl. one sharing its match text with a categorising rule at low priority, one with case-significant dynamic tag expressions, one more specific than "
         "every categorising rule, one with an unevaluable {field.nope} and an empty {} tag) x 2 rule modes, plus every sequence of 1..K "
         "rows over 6 legacy CSV rows with a|B tags; each file on 72 transactions via engine.match and normalize_merchant. "
         "non-trivial = file where some transaction is matched by >=2 tag-bearing rules or by a tag-only rule; files distinct by construction")
@@ -38,6 +38,11 @@ RULES = [
     {"name": "TagSub", "match": 'contains("UBER") and contains("TRIP") and contains("77")', "tags": "Trip", "subcategory": "Sneaky",
      "merchant": "Renamed"},
     {"name": "TagPrio", "match": 'contains("NETFLIX")', "tags": "vip", "priority": 90},
+    # same match text as the categorising [Uber] rule, low priority
+    {"name": "TagLow", "match": 'contains("UBER")', "tags": "low", "priority": 10},
+    # dynamic tags whose expression text is case-significant (\\S vs \\s, "F" vs "f")
+    {"name": "TagCase", "match": 'contains("TRIP") or contains("NETFLIX")',
+     "tags": '{extract("TRIP (\\S+)")}, {split(field.memo, "F", 1)}, {extract(field.memo, "REF\\s(\\S+)")}'},
 ]
 CSVROWS = [
     {"pattern": "NETFLIX", "merchant": "Netflix", "category": "Subs", "subcategory": "Streaming", "tags": "a|B"},
